@@ -58,7 +58,8 @@ CFG = {'streams': [{'name': 'C02',
              'for root causes other than UndefinedEdge (order dependent) and Cancelled, with the lazy run fed the strict matches stanza by stanza, '
              'no debug attributes, no cancellation budget; the conclusion is "lazy never returns Ok" (plus "returns Err unless the model runs out '
              'of fuel" under the no-panic hypotheses): "lazy returns Err from some fuel on" is false in the model, because lazy execution goes on '
-             'after the failure point and the statements it then runs may diverge (recursive shorthand, K2). NOT proved: the failure direction '
+             'after the failure point and the statements it then runs may diverge (strict_fail_lazy_diverges_k2: a fragment program on which strict '
+             'fails at the first statement and lazy runs out of EVERY fuel in a recursive shorthand, K2). NOT proved: the failure direction '
              'with scoped variables (explored by the direct stream)'],
  'assumptions': ['tree-sitter queries are an external: raw matches are recorded by calling QueryCursor::matches directly on the stanza queries and '
                  'on the merged file query',
